@@ -19,9 +19,12 @@ def run(tier, seed):
         "rule": "histories that create, activate, finalize (event_finalize / event_free_finalize) and free events and once-events at "
                 "every point incl. from inside their own callbacks, ending with event_base_free (with/without finalizers) at every "
                 "point; every finalizer / callback invocation is logged and compared with the model (exactly once, after the last "
-                "callback, never after release; once callbacks once or never); ASan build for use-after-free.",
+                "callback, never after release; once callbacks once or never); ASan build for use-after-free; after the "
+                "teardown (every event released, base freed) the library's allocator balance and the descriptor table are back "
+                "to their values before the scenario (resource balance through event_set_mem_functions / fcntl probe).",
         "assumptions": ["bufferevent/listener release is covered by C19/C44 checks, not here",
-                        "memory/fd leak clauses are sanitizer side conditions (LeakSanitizer off in this driver)"],
+                        "resource balance is measured per scenario by the driver (allocator hooks, fd table), not by LeakSanitizer; "
+                        "libevent_global_shutdown is not called between scenarios (one process replays many scenarios)"],
     }
     return ec.standard_run("C10", tier, seed, plan)
 
